@@ -90,6 +90,11 @@ ENT = {"&": "&amp;", "<": "&lt;", ">": "&gt;", '"': "&quot;", "'": "&apos;"}
 RAW_ATTRS = {"Id", "Target", "r:id", "relationships:id", "Type", "office:value-type"}
 
 
+def is_raw_attr(a):
+    """relationship ids (`id` under any prefix), Id, Target, …: calamine uses the raw bytes"""
+    return a in RAW_ATTRS or a.endswith(":id")
+
+
 def esc(s, rng, attr=None):
     """character data; attr = the delimiting quote for an attribute value"""
     out = []
@@ -130,7 +135,7 @@ def serialise(events, rng=None, decl=True):
             parts = [e[1]]
             for a, v in e[2]:
                 q = "'" if (rng is not None and rng.random() < 0.2) else '"'
-                if a in RAW_ATTRS:
+                if is_raw_attr(a):
                     parts.append('%s=%s%s%s' % (a, q, v, q))
                 else:
                     parts.append('%s=%s%s%s' % (a, q, esc(v, rng, attr=q), q))
